@@ -177,6 +177,13 @@ func lmtpScenarios() []scenario {
 	}
 }
 
+// backendConns counts the HTTP client connections this process holds open (net/http keeps a read loop per connection)
+func backendConns() int {
+	buf := make([]byte, 1<<24)
+	n := runtime.Stack(buf, true)
+	return strings.Count(string(buf[:n]), "net/http.(*persistConn).readLoop(")
+}
+
 // ravenGoroutines counts goroutines currently inside the services' connection code
 func ravenGoroutines() (int, string) {
 	buf := make([]byte, 1<<22)
@@ -380,6 +387,20 @@ func main() {
 	}
 
 	if len(only) == 0 {
+		// sockets: what a session opened towards the authentication backend is released with it. A shared client may keep a
+		// bounded number of idle connections; a number that grows with the logins is a leak (each holds two goroutines and a
+		// descriptor until the other side gives up)
+		rep.Case("imap/backend-connections-after-logins", true)
+		base := backendConns()
+		for i := 0; i < 25; i++ {
+			c := w.Login(fmt.Sprintf("life%d@example.com", i%3))
+			c.Cmd("LOGOUT")
+			c.Close()
+		}
+		time.Sleep(300 * time.Millisecond)
+		if n := backendConns(); n > base+4 {
+			rep.Violate("impl-violation", "sockets released", fmt.Sprintf("25 further IMAP logins (each session ended) left %d more connections to the authentication backend open (%d → %d): one per login, never closed", n-base, base, n), []string{"scenario imap/backend-connections-after-logins"})
+		}
 		shutdownLMTP(w, dir, rep, ask, o.Thorough)
 		shutdownSASL(w, dir, rep, o.Thorough)
 	}
@@ -547,6 +568,30 @@ func shutdownSASL(w *world.World, dir string, rep *hx.Report, thorough bool) {
 				break
 			}
 			time.Sleep(10 * time.Millisecond)
+		}
+		if variant == 0 {
+			rep.Case("sasl/backend-connections-after-auths", true)
+			base := backendConns()
+			for i := 0; i < 25; i++ {
+				c, err := net.Dial("unix", sock)
+				if err != nil {
+					break
+				}
+				io.WriteString(c, "VERSION\t1\t2\nCPID\t1\nAUTH\t1\tPLAIN\tservice=smtp\tresp=AGxpZmVAZXhhbXBsZS5jb20AcHc=\n")
+				c.SetReadDeadline(time.Now().Add(2 * time.Second))
+				r := bufio.NewReader(c)
+				for {
+					l, err := r.ReadString('\n')
+					if err != nil || strings.HasPrefix(l, "OK") || strings.HasPrefix(l, "FAIL") {
+						break
+					}
+				}
+				c.Close()
+			}
+			time.Sleep(300 * time.Millisecond)
+			if n := backendConns(); n > base+4 {
+				rep.Violate("impl-violation", "sockets released", fmt.Sprintf("25 SASL authentications (each connection closed) left %d more connections to the authentication backend open (%d → %d)", n-base, base, n), []string{"scenario sasl/backend-connections-after-auths"})
+			}
 		}
 		// connections in every state
 		var conns []net.Conn
